@@ -7,7 +7,7 @@ exceptions as `err:Other` (OverflowError / ValueError of date arithmetic).
   cal.oford N                      -> Y-M-D TAB weekday TAB isoweekday TAB isoYear,isoWeek,isoDay
   cal.dd Y M D years months days   -> Y-M-D | err:Other
   du.this|du.next|du.last Y M D secs dow          -> Y-M-D@secs | err:Other
-  du.gen noYear Y M D secs year m d               -> future;past
+  du.gen|du.genfixed noYear Y M D secs year m d   -> future;past   (genfixed = repaired variant: compares dates)
   du.ago D|W|MON|Y num Y M D secs isFuture        -> timex TAB value | err:Other
   du.special Y M D secs swift                     -> timex TAB value | err:Other
   du.wd next|this|last Y M D secs dow             -> timex TAB value | err:Other
@@ -55,6 +55,12 @@ def hThisNextLast (f : DateTime → Nat → Option DateTime) : Handler
 def hGen : Handler
   | [ny, y, m, d, s, yr, mm, dd] =>
     let (f, p) := generateDates (parseBool ny) (mkDT y m d s) (parseInt yr) (parseNat mm) (parseNat dd)
+    s!"{showDT f};{showDT p}"
+  | _ => "bad-op"
+
+def hGenFixed : Handler
+  | [ny, y, m, d, s, yr, mm, dd] =>
+    let (f, p) := generateDatesFixed (parseBool ny) (mkDT y m d s) (parseInt yr) (parseNat mm) (parseNat dd)
     s!"{showDT f};{showDT p}"
   | _ => "bad-op"
 
@@ -123,6 +129,7 @@ def dispatchCal (op : String) (args : List String) : Option String :=
   | "du.next" => some (hThisNextLast DateUtils.next args)
   | "du.last" => some (hThisNextLast DateUtils.last args)
   | "du.gen" => some (hGen args)
+  | "du.genfixed" => some (hGenFixed args)
   | "du.ago" => some (hAgo args)
   | "du.special" => some (hSpecial args)
   | "du.wd" => some (hWd args)
